@@ -382,6 +382,12 @@ def r3_ordered(repo, report):
         facts["body_effects"] = eff
         ok = eff is not None and [tuple(x) for x in eff] == want
     report.ob("C06.R3", "OrderedChunkWriter.write", ok, facts=facts, expected="store under its index; while current index present: write it, delete it, advance by one", loc=repo.loc(wr))
+    # only write() may put bytes into the output file: anything else that writes held-back chunks breaks the order
+    # (and, on the error path, puts records behind a fault into the file without the ones before it)
+    writers = sorted(mname for mname, m_ in cls.methods.items() for x in ast.walk(m_) if isinstance(x, ast.Call) and chain(x.func) in ("self._outfile.write", "self._outfile.writelines"))
+    report.ob("C06.R3", "OrderedChunkWriter: only write() writes to the output file", writers == ["write"], facts={"methods_writing_to_the_file": writers}, loc=repo.loc(cls.node),
+              expected="self._outfile.write(...) occurs in OrderedChunkWriter.write alone",
+              why="" if writers == ["write"] else f"{[w for w in writers if w != 'write'][:1]} also writes to the output file: chunks that are waiting for an earlier one reach the file out of input order")
     c, prun = repo.need_method("ParallelPipelineRunner", "run")
     ws = [x for x in calls(prun) if chain(x.func) == "writer.write"]
     ok = len(ws) == 1 and [src(a) for a in ws[0].args] == ["data", "chunk_index"]
@@ -650,7 +656,43 @@ def _param_attr_map(repo, cls_name, init_name):
     return ps, out
 
 
+def _copy_hooks(repo, report):
+    """__copy__ / __deepcopy__ that rebuild the object through its constructor must hand over every constructor
+    parameter from the attribute that stores it (cli.py makes the R2 modifier of a shared option with copy.copy, workers
+    receive copies): a parameter left out silently falls back to its default in the copy."""
+    for cls in sorted(repo.classes.values(), key=lambda c: c.name):
+        for hook in ("__copy__", "__deepcopy__"):
+            fn = cls.methods.get(hook)
+            if fn is None:
+                continue
+            rets = [x for x in ast.walk(fn) if isinstance(x, ast.Return) and x.value is not None]
+            init_name = "__cinit__" if "__cinit__" in cls.methods else "__init__"
+            ps, pmap = _param_attr_map(repo, cls.name, init_name)
+            problems = []
+            if len(rets) != 1 or not isinstance(rets[0].value, ast.Call) or chain(rets[0].value.func) not in (cls.name, "type(self)", "self.__class__") or ps is None:
+                report.unrecognised("C06.R5", f"{cls.name}.{hook}", "does not return ClassName(...)", repo.loc(fn))
+                continue
+            call = rets[0].value
+            given = {}
+            for i, a in enumerate(call.args):
+                if i < len(ps):
+                    given[ps[i]] = a
+            for k in call.keywords:
+                if k.arg is not None:
+                    given[k.arg] = k.value
+            for p_ in ps:
+                if p_ not in given:
+                    problems.append(f"parameter '{p_}' is not handed over (the copy gets the default)")
+                else:
+                    ch = chain(given[p_]) or ""
+                    if not (ch.startswith("self.") and ch[5:] in pmap.get(p_, [])):
+                        problems.append(f"parameter '{p_}' gets {src(given[p_])}, not the attribute that stores it {pmap.get(p_)}")
+            report.ob("C06.R5", f"{cls.name}.{hook}", not problems, facts={"call": src(call)[:160], "constructor": ps, "stored_in": pmap, "problems": problems[:3]},
+                      expected="ClassName(<attribute storing parameter 1>, <attribute storing parameter 2>, ...)", loc=repo.loc(fn), why="; ".join(problems[:2]))
+
+
 def r5_pickle(repo, report):
+    _copy_hooks(repo, report)
     n = 0
     for cls in sorted(repo.classes.values(), key=lambda c: c.name):
         if "__reduce__" in cls.methods:
@@ -747,6 +789,21 @@ def r4_statistics_slots(repo, report):
                       why=f"the read indices are {text}, decided before self.paired is adopted from the other object: merging into a fresh Statistics (paired is None) drops the second read's tallies")
         else:
             report.unrecognised("C06.R4", "Statistics.__iadd__ merges both per-read slots", f"read indices {text} are not a constant", repo.loc(lp))
+    # every merge step of an iteration runs: nothing in the body jumps to the next read index
+    from ..repo import walk_no_nested
+    jumps = []
+    def _jumps(stmts):
+        for st_ in stmts:
+            if isinstance(st_, (ast.Continue, ast.Break)):
+                jumps.append(st_.lineno)
+            elif isinstance(st_, ast.If):
+                _jumps(st_.body); _jumps(st_.orelse)
+            elif isinstance(st_, (ast.With, ast.Try)):
+                _jumps(getattr(st_, "body", []))
+    _jumps(lp.body)
+    report.ob("C06.R4", "Statistics.__iadd__: no merge step of a read index is skipped", not jumps, facts={"continue_or_break_at_lines": jumps}, loc=repo.loc(lp),
+              expected="the body of the loop over the read index has no continue/break of its own (each tally is merged under its own condition)",
+              why=(f"a continue/break at line {jumps[0]} ends the iteration early: the tallies merged further down (quality-trimmed bases, poly-A lengths, ...) are skipped whenever that condition holds, e.g. for a read end without adapters" if jumps else ""))
     # inside the loop: lists that are indexed with i anywhere are per-read lists; none of them may be indexed with a constant
     per_read = {chain(x.value) for x in ast.walk(lp) if isinstance(x, ast.Subscript) and isinstance(x.slice, ast.Name) and x.slice.id == i and chain(x.value)}
     const_idx = sorted({src(x) for x in ast.walk(lp) if isinstance(x, ast.Subscript) and isinstance(x.slice, ast.Constant) and isinstance(x.slice.value, int) and chain(x.value) in per_read})
